@@ -99,35 +99,42 @@ vars  == <<date, type, dtsPts, crDts, rapCr, steps, last, hist>>
 View  == <<date, type, dtsPts, crDts, rapCr, steps>>
 
 -----------------------------------------------------------------------------
-(* The getters: transcription of UREF_CLOCK_GET_{PTS,DTS,CR,RAP}.  A delay *)
-(* that is Unset makes the getter fail.  The negative variant              *)
-(* "getdts_wrong_delay" subtracts the wrong delay in get_dts.              *)
-GetPts(dom) ==
-  LET d == date[dom] t == type[dom] IN
+(* The getters: transcription of UREF_CLOCK_GET_{PTS,DTS,CR,RAP}, first as  *)
+(* functions of a stored date d of type t and the delays cd (cr->dts),     *)
+(* dp (dts->pts), rc (rap->cr).  A delay that is Unset makes the getter    *)
+(* fail.  The negative variant "getdts_wrong_delay" subtracts the wrong    *)
+(* delay in get_dts.                                                       *)
+PtsOf(d, t, cd, dp) ==
   CASE t = TNone -> Absent
-    [] t = TCr   -> IF crDts = Unset \/ dtsPts = Unset THEN Absent ELSE Add(Add(d, crDts), dtsPts)
-    [] t = TDts  -> IF dtsPts = Unset THEN Absent ELSE Add(d, dtsPts)
+    [] t = TCr   -> IF cd = Unset \/ dp = Unset THEN Absent ELSE Add(Add(d, cd), dp)
+    [] t = TDts  -> IF dp = Unset THEN Absent ELSE Add(d, dp)
     [] t = TPts  -> d
 
-GetDts(dom) ==
-  LET d == date[dom] t == type[dom] IN
+DtsOf(d, t, cd, dp) ==
   CASE t = TNone -> Absent
-    [] t = TCr   -> IF crDts = Unset THEN Absent ELSE Add(d, crDts)
+    [] t = TCr   -> IF cd = Unset THEN Absent ELSE Add(d, cd)
     [] t = TDts  -> d
     [] t = TPts  -> IF Variant = "getdts_wrong_delay"
-                    THEN (IF crDts = Unset THEN Absent ELSE Sub(d, crDts))
-                    ELSE (IF dtsPts = Unset THEN Absent ELSE Sub(d, dtsPts))
+                    THEN (IF cd = Unset THEN Absent ELSE Sub(d, cd))
+                    ELSE (IF dp = Unset THEN Absent ELSE Sub(d, dp))
 
-GetCr(dom) ==
-  LET d == date[dom] t == type[dom] IN
+CrOf(d, t, cd, dp) ==
   CASE t = TNone -> Absent
     [] t = TCr   -> d
-    [] t = TDts  -> IF crDts = Unset THEN Absent ELSE Sub(d, crDts)
-    [] t = TPts  -> IF dtsPts = Unset \/ crDts = Unset THEN Absent ELSE Sub(Sub(d, dtsPts), crDts)
+    [] t = TDts  -> IF cd = Unset THEN Absent ELSE Sub(d, cd)
+    [] t = TPts  -> IF dp = Unset \/ cd = Unset THEN Absent ELSE Sub(Sub(d, dp), cd)
 
-GetRap(dom) ==
-  LET c == GetCr(dom) IN
-  IF c = Absent \/ rapCr = Unset THEN Absent ELSE Sub(c, rapCr)
+RapOf(d, t, cd, dp, rc) ==
+  LET c == CrOf(d, t, cd, dp) IN
+  IF c = Absent \/ rc = Unset THEN Absent ELSE Sub(c, rc)
+
+DelayOf(x) == IF x = Unset THEN Absent ELSE x
+
+\* the getters in the current state
+GetPts(dom) == PtsOf(date[dom], type[dom], crDts, dtsPts)
+GetDts(dom) == DtsOf(date[dom], type[dom], crDts, dtsPts)
+GetCr(dom)  == CrOf(date[dom], type[dom], crDts, dtsPts)
+GetRap(dom) == RapOf(date[dom], type[dom], crDts, dtsPts, rapCr)
 
 Getter(dom, t) ==
   CASE t = TCr  -> GetCr(dom)
@@ -136,23 +143,31 @@ Getter(dom, t) ==
     [] t = TRap -> GetRap(dom)
 
 DelayVal(w) == CASE w = "dtsPts" -> dtsPts [] w = "crDts" -> crDts [] w = "rapCr" -> rapCr
-GetDelay(w) == IF DelayVal(w) = Unset THEN Absent ELSE DelayVal(w)
+GetDelay(w) == DelayOf(DelayVal(w))
 
-\* everything an observer can read: cr, dts, pts, rap of sys, prog, orig,
-\* then the three delays (15 entries, each a word or Absent)
-AllGetters ==
-  << GetCr("sys"),  GetDts("sys"),  GetPts("sys"),  GetRap("sys"),
-     GetCr("prog"), GetDts("prog"), GetPts("prog"), GetRap("prog"),
-     GetCr("orig"), GetDts("orig"), GetPts("orig"), GetRap("orig"),
-     GetDelay("dtsPts"), GetDelay("crDts"), GetDelay("rapCr") >>
+\* everything an observer can read in a state s = [date, type, dtsPts, crDts,
+\* rapCr]: cr, dts, pts, rap of sys, prog, orig, then the three delays
+\* (15 entries, each a word or Absent)
+DomGetters(s, dom) ==
+  LET d == s.date[dom] t == s.type[dom] IN
+  << CrOf(d, t, s.crDts, s.dtsPts), DtsOf(d, t, s.crDts, s.dtsPts),
+     PtsOf(d, t, s.crDts, s.dtsPts), RapOf(d, t, s.crDts, s.dtsPts, s.rapCr) >>
+GettersOf(s) ==
+  DomGetters(s, "sys") \o DomGetters(s, "prog") \o DomGetters(s, "orig")
+  \o << DelayOf(s.dtsPts), DelayOf(s.crDts), DelayOf(s.rapCr) >>
+
+Cur == [date |-> date, type |-> type, dtsPts |-> dtsPts, crDts |-> crDts, rapCr |-> rapCr]
+AllGetters == GettersOf(Cur)
 
 -----------------------------------------------------------------------------
 Op(o, dom, t, v, ok, res) == [op |-> o, dom |-> dom, ty |-> t, v |-> v, ok |-> ok, res |-> res]
 
-\* bookkeeping common to all operations; `o` describes the call and what it returned
+\* bookkeeping common to all operations; `o` describes the call and what it
+\* returned.  The history keeps the call and the state reached; the predicted
+\* results of all getters are computed from it when the behaviour is printed.
 Done(o) == /\ steps' = steps + 1
            /\ last' = o
-           /\ hist' = IF Record THEN Append(hist, [c |-> o, g |-> AllGetters']) ELSE hist
+           /\ hist' = IF Record THEN Append(hist, [c |-> o, s |-> Cur']) ELSE hist
 
 \* effect of uref_clock_set_date_<dom>(date = v, type = t) on the state:
 \* moving the stored date to a LATER stage records the delay, so that the
@@ -253,21 +268,28 @@ Init == /\ date = [d \in Doms |-> Unset]
         /\ hist = <<>>
 
 More == steps < MaxSteps
-KSetDate  == More /\ \E dom \in Doms, t \in SetTypes, v \in Palette : SetDate(dom, t, v)
-KRebase   == More /\ \E dom \in Doms, t \in SetTypes : Rebase(dom, t)
-KDelete   == More /\ \E dom \in Doms : DeleteDate(dom)
-KAdd      == More /\ \E dom \in Doms, v \in Palette : AddDate(dom, v)
-KSetDelay == More /\ \E w \in Delays, v \in Palette : SetDelay(w, v)
-KDelDelay == More /\ \E w \in Delays : DeleteDelay(w)
-KSetRap   == More /\ \E dom \in Doms, v \in Palette : SetRap(dom, v)
-KDup      == More /\ \E which \in {"copy", "orig"} : Dup(which)
-KGet      == More /\ \E dom \in Doms, t \in GetTypes : Get(dom, t)
-KGetDelay == More /\ \E w \in Delays : GetDelayOp(w)
+KSetDate   == More /\ \E dom \in Doms, t \in SetTypes, v \in Palette : SetDate(dom, t, v)
+KRebaseOk  == More /\ \E dom \in Doms, t \in SetTypes : Getter(dom, t) # Absent /\ Rebase(dom, t)
+KRebaseErr == More /\ \E dom \in Doms, t \in SetTypes : Getter(dom, t) = Absent /\ Rebase(dom, t)
+KDelete    == More /\ \E dom \in Doms : DeleteDate(dom)
+KAdd       == More /\ \E dom \in Doms, v \in Palette : ~ AddCollides(dom) /\ AddDate(dom, v)
+KAddUnspec == More /\ \E dom \in Doms, v \in Palette : AddCollides(dom) /\ AddDate(dom, v)
+KSetDelay  == More /\ \E w \in Delays, v \in Palette : SetDelay(w, v)
+KDelDelay  == More /\ \E w \in Delays : DeleteDelay(w)
+KSetRapOk  == More /\ \E dom \in Doms, v \in Palette :
+                         (IF GetCr(dom) = Absent THEN FALSE ELSE ~ Gt(v, GetCr(dom))) /\ SetRap(dom, v)
+KSetRapErr == More /\ \E dom \in Doms, v \in Palette :
+                         (IF GetCr(dom) = Absent THEN TRUE ELSE Gt(v, GetCr(dom))) /\ SetRap(dom, v)
+KDup       == More /\ \E which \in {"copy", "orig"} : Dup(which)
+KGet       == More /\ \E dom \in Doms, t \in GetTypes : Get(dom, t)
+KGetDelay  == More /\ \E w \in Delays : GetDelayOp(w)
 
-\* (order: TLC credits a new state to the first disjunct that reaches it; the
-\* operations with few instances come first so that coverage shows them taken)
-Next == \/ KGet \/ KGetDelay \/ KDup \/ KRebase \/ KDelDelay \/ KDelete
-        \/ KAdd \/ KSetRap \/ KSetDelay \/ KSetDate
+KRebase == KRebaseOk \/ KRebaseErr
+KSetRap == KSetRapOk \/ KSetRapErr
+
+\* (the split into Ok / Err / Unspec actions only serves the coverage report)
+Next == \/ KGet \/ KGetDelay \/ KDup \/ KRebaseOk \/ KRebaseErr \/ KDelDelay \/ KDelete
+        \/ KAdd \/ KAddUnspec \/ KSetRapOk \/ KSetRapErr \/ KSetDelay \/ KSetDate
 
 Spec == Init /\ [][Next]_vars
 
@@ -281,7 +303,7 @@ Kinds == <<"SetDate", "SetDate", "SetDate", "SetDate", "Rebase", "Rebase", "Reba
 Kind(k) == CASE k = "SetDate"  -> KSetDate
              [] k = "Rebase"   -> KRebase
              [] k = "Delete"   -> KDelete
-             [] k = "Add"      -> KAdd
+             [] k = "Add"      -> KAdd \/ KAddUnspec
              [] k = "SetDelay" -> KSetDelay
              [] k = "DelDelay" -> KDelDelay
              [] k = "SetRap"   -> KSetRap
@@ -289,7 +311,16 @@ Kind(k) == CASE k = "SetDate"  -> KSetDate
              [] k = "Get"      -> KGet
              [] k = "GetDelay" -> KGetDelay
 
-GenNext == \E i \in {RandomElement(1 .. Len(Kinds))} : Kind(Kinds[i])
+\* (the set depends on a variable only to keep TLC from evaluating the draw once
+\* and for all).  After the last operation a single End step prints the
+\* behaviour - calls and predicted results - as one JSON line.
+KEnd == /\ steps = MaxSteps /\ last.op # "End"
+        /\ last' = Op("End", "sys", TNone, Zero, TRUE, Absent)
+        /\ UNCHANGED <<date, type, dtsPts, crDts, rapCr, steps, hist>>
+        /\ PrintT(<<"BEH", ToJson([i \in 1 .. Len(hist) |->
+                                      [c |-> hist[i].c, g |-> GettersOf(hist[i].s)]])>>)
+GenNext == \/ \E i \in {RandomElement({j \in 1 .. Len(Kinds) : steps >= 0})} : Kind(Kinds[i])
+           \/ KEnd
 GenSpec == Init /\ [][GenNext]_vars
 
 StepBound == steps <= MaxSteps
@@ -300,23 +331,26 @@ StepBound == steps <= MaxSteps
 TypeOK == /\ \A d \in Doms : IsWord(date[d]) /\ type[d] \in 0 .. 3
           /\ \A d \in Doms : type[d] = TNone => date[d] = Unset
           /\ IsWord(dtsPts) /\ IsWord(crDts) /\ IsWord(rapCr)
-          /\ \A i \in 1 .. 15 : AllGetters[i] = Absent \/ IsWord(AllGetters[i])
+          /\ LET G == AllGetters IN \A i \in 1 .. 15 : G[i] = Absent \/ IsWord(G[i])
 
 \* whichever of the three the date is stored as, the views that can be read agree
 Algebra ==
   \A d \in Doms :
-    /\ (GetCr(d) # Absent /\ GetDts(d) # Absent) =>
-          crDts # Unset /\ GetDts(d) = Add(GetCr(d), crDts)
-    /\ (GetDts(d) # Absent /\ GetPts(d) # Absent) =>
-          dtsPts # Unset /\ GetPts(d) = Add(GetDts(d), dtsPts)
-    /\ (GetRap(d) # Absent) =>
-          GetCr(d) # Absent /\ rapCr # Unset /\ GetCr(d) = Add(GetRap(d), rapCr)
+    LET c == GetCr(d)
+        t == GetDts(d)
+        p == GetPts(d)
+        r == GetRap(d)
+    IN /\ (c # Absent /\ t # Absent) => crDts # Unset /\ t = Add(c, crDts)
+       /\ (t # Absent /\ p # Absent) => dtsPts # Unset /\ p = Add(t, dtsPts)
+       /\ (r # Absent) => c # Absent /\ rapCr # Unset /\ c = Add(r, rapCr)
 
 \* re-basing, reading and duplicating change no date (nor delay) that could be read before
 Preserving == {"Rebase", "Get", "GetDelay", "Dup"}
 RebasePreserves ==
   [][ last'.op \in Preserving =>
-        \A i \in 1 .. 15 : AllGetters[i] # Absent => AllGetters'[i] = AllGetters[i] ]_vars
+        LET G == AllGetters
+            H == AllGetters'
+        IN \A i \in 1 .. 15 : G[i] # Absent => H[i] = G[i] ]_vars
 
 \* a date set as one type reads back as the same value of that type
 SetReadsBack ==
@@ -336,9 +370,7 @@ RapNotAfterCr ==
                 /\ rapCr' # Unset => \A d \in Doms : last'.dom = d => GetRap(d)' = last'.v
                 /\ UNCHANGED <<date, type, dtsPts, crDts>>
            ELSE UNCHANGED state
-      /\ rapCr' # rapCr => last'.op \in {"SetRap", "SetDelay", "DeleteDelay"}
+      /\ rapCr' # rapCr => last'.op \in {"SetRap", "SetDelay", "DeleteDelay", "Init"}
     ]_vars
 
-\* one line per finished behaviour: calls and predicted results
-Emit == (Record /\ steps = MaxSteps) => PrintT(<<"BEH", ToJson(hist)>>)
 =============================================================================
